@@ -87,7 +87,8 @@ static void hugeCase(Ctx& c) {
 static void run(Ctx& c) {
     if (c.idx % 16 == 5) { hugeCase(c); return; }
     Rng& r = c.rng;
-    Shape sh = randomShape(r, 1, 5, 5, 1024);
+    Shape sh = randomShapeW(r, 1, 5, 5, 1024);
+    if (sh.sizes.size() > 1 && *std::max_element(sh.sizes.begin(), sh.sizes.end()) >= 10) c.count("wide_variable_shapes");
     MEDDLY::initialize();
     World w(sh);
     FSpec fsrc = mkSpec(false, range_type::BOOLEAN, edge_labeling::MULTI_TERMINAL, r.chance(1, 2) ? reduction_rule::FULLY_REDUCED : reduction_rule::QUASI_REDUCED);
